@@ -61,7 +61,7 @@ func (s *verifC18SigModel) signer() crypto.SingleSigner {
 }
 
 func verifC18TxTarget(sm *verifC18SigModel) *verifC18Target {
-	return &verifC18Target{Name: "tx", Schema: verifC18TxSchema, Skip: []string{"interleaved-repeated"},
+	return &verifC18Target{Name: "tx", Schema: verifC18TxSchema, Skip: []string{"interleaved-repeated"}, SigFields: []int{12},
 		Intercept: func(b []byte, m marshal.Marshalizer) verifC18Outcome {
 			coord := mock.NewMultiShardsCoordinatorMock(3)
 			coord.CurrentShard = 1
